@@ -79,7 +79,12 @@ def make_inputs(job, vals=None):
         dps.append(dp)
     clusters = None
     if job["clustered"]:
-        clusters = pd.DataFrame([{"mutation_id": m, "cluster_id": 10 + i} for i in range(n) for m in muts[i]])
+        rows = [{"mutation_id": m, "cluster_id": 10 + i} for i in range(n) for m in muts[i]]
+        # the cluster file also lists a cluster all of whose mutations the loader dropped (copy number zero / not in every sample):
+        # it has no data point, sorts between the others, and its mutations must come out as outliers
+        rows.insert(len(muts[0]), {"mutation_id": "mDropped", "cluster_id": 9})        # id 9 sorts before every surviving cluster
+        clusters = pd.DataFrame(rows)
+        muts["dropped"] = ["mDropped"]
     return dps, samples, clusters, muts
 
 
@@ -107,12 +112,12 @@ def check_table(job, f, tree, table, muts, samples, newick):
     by_clone = {}
     for r in rows:
         i = [k for k, ms in muts.items() if r["mutation_id"] in ms][0]
-        expected_clone = label_of.get(i, -1)
+        expected_clone = label_of.get(i, -1) if i != "dropped" else -1
         if r["clone_id"] != expected_clone:
             return f"mutation {r['mutation_id']} reported in clone {r['clone_id']}, tree says {expected_clone}"
         if r["clone_id"] != -1 and int(r["clone_id"]) not in names:
             return f"clone id {r['clone_id']} is not a node of the Newick tree {newick}"
-        if job["clustered"] and int(r["cluster_id"]) != 10 + i:
+        if job["clustered"] and i != "dropped" and int(r["cluster_id"]) != 10 + i:
             return f"cluster id of {r['mutation_id']} is {r['cluster_id']}"
         ccf, prev = float(r["ccf"]), float(r["clonal_prev"])
         if r["clone_id"] == -1:
